@@ -523,7 +523,8 @@ pub fn decorate(
                 }
             }
             if pi.before_ok[t.node] && t.char_start > 0 && old[t.char_start - 1] == ' ' && rng.below(100) < 10 * intensity {
-                let pad = match rng.below(4) {
+                let after_qmark = t.char_start >= 2 && old[t.char_start - 2] == '?';
+                let pad = match rng.below(if after_qmark { 1 } else { 4 }) {
                     0 => " ",
                     1 => "\t",
                     2 => "  ",
